@@ -149,7 +149,7 @@ def run(ck):
 
     # 4. (run first: it is also the failing-input search of the broken obligations)
     runs = [gen_run(rng) for _ in range(600 if ck.quick else 12000)]
-    pr = ck.run([harness], input="".join(r["line"] + "\n" for r in runs), timeout=2400)
+    pr = c48lib.run_harness(ck, harness, "".join(r["line"] + "\n" for r in runs))
     if pr.returncode != 0:
         ck.violation("harness-crash", "the implementation harness aborted (sanitizer or crash)",
                      {"stderr": pr.stderr[-3000:]}, False)
@@ -244,7 +244,7 @@ def run(ck):
         L = rng.randint(5, 14)
         reqs.append("rv %d %d %d %s" % (sh + (" ".join(rng.choice("ssruf") for _ in range(L)),)))
     text = "".join(x + "\n" for x in reqs)
-    pi = ck.run([harness], input=text, timeout=1200)
+    pi = c48lib.run_harness(ck, harness, text)
     pm = ck.run([driver], input=text, timeout=1200)
     if pi.returncode != 0:
         ck.violation("harness-crash", "the implementation harness aborted (sanitizer or crash)",
